@@ -6,16 +6,17 @@ _CRASH = {"crash_is_violation": True}
 PROP = {
     "level": "exploration",
     "rule": ("rapid-generated cases = queue configuration (fixed-window quota max 1-3 per 1-3 s, queue_size 1-4, first instant at offset 0/300/950 ms inside its second, "
-             "priority groups high=1 mid=2 low=3 by header, absent/unknown group = 999; a per-case palette of priorities) + a schedule of 1-24 controller actions "
-             "{arrive(priority, optionally held between slot check and registration, optionally with its clean-up goroutine held before the removal from the watch list), "
-             "tick x N (N in 1..9 or one whole window: the 100 ms processing loop is fired on a harness-owned virtual clock and awaited until it re-armed), "
-             "release(one goroutine held after its slot check), remove(one held clean-up goroutine)}, then shutdown: held arrivals register, the context is cancelled, "
-             "0-2 arrivals between cancellation and the draining tick, clean-up goroutines still held are either released first or kept held (structural predicate of C06-F3), "
-             "the draining tick. The real engine is loaded from YAML (Queue -> GenerateResponse 429) and every arrival is one Stream.ExecuteFlow call in its own goroutine. "
-             "After every action the observation (hook events queue.registered / queue.verdict, returned transactions) is judged by the statement. "
-             "A second unit runs 2-5 arrivals with ttl_seconds=1 on the real clock (the TTL watcher waits with time.After), optionally with a shutdown 150-300 ms after the last arrival. "
-             "Non-trivial: a tick with >=2 simultaneous waiters of different priority or arrival of which not all are admitted, a registration while another arrival sits "
-             "between its slot check and its registration, a shutdown with waiters, (real clock) a request expired by its TTL; distinct = canonical JSON of configuration + schedule"),
+             "priority groups high=1 mid=2 low=3 by header x-prio, header absent or unknown group = no group; a per-case palette of priorities so that cases with many equal and "
+             "with many different priorities both occur) + a schedule of 1-8 rounds, a round = burst of 0-4 arrivals {priority, optionally held between slot check and "
+             "registration, optionally with its clean-up goroutine held before the removal from the watch list}, then tick x N (N in 1,2,3,9 or one whole window -1/0/+1: the "
+             "100 ms processing loop is fired on a harness-owned virtual clock and awaited until it re-armed), interspersed release(one goroutine held after its slot check) / "
+             "remove(one held clean-up goroutine); then shutdown: held arrivals register, the context is cancelled, 0-2 arrivals between cancellation and the draining tick, "
+             "clean-up goroutines still held are either released first or kept held (the structural predicate of C06-F3), the draining tick. The real engine is loaded from YAML "
+             "(Queue -> GenerateResponse 429) and every arrival is one Stream.ExecuteFlow call in its own goroutine. After every action the observation (hook events "
+             "queue.registered / queue.verdict, returned transactions) is judged by the statement. A second unit runs 2-5 arrivals with ttl_seconds=1 on the real clock (the TTL "
+             "watcher waits with time.After), optionally with a shutdown 150-300 ms after the last arrival. Non-trivial: a tick with >=2 simultaneous waiters of different priority "
+             "or arrival of which not all are admitted, a registration while another arrival sits between its slot check and its registration, a shutdown with waiters, "
+             "(real clock) a request expired by its TTL; distinct = canonical JSON of configuration + schedule"),
     "assumptions": [
         "in-memory queue and state only (the Redis-backed queue of the pro build is absent); one queue processor and one quota (no group_by_header, no parent quota) per case",
         "arrivals are started one after the other (the controller waits until an arrival is registered, refused, or held at the slot check before it goes on); truly simultaneous arrivals exist only through the hold at queue.slot-checked",
@@ -24,8 +25,8 @@ PROP = {
         "a refusal while the queue has room and an admission later than the earliest possible tick are not violations (the statement demands neither)",
         "which verdicts a tick must have signalled is predicted by a replica of today's loop (two variants: blocked head re-stamped / keeps its stamp) so that the controller waits for exactly those events and never sleeps; if the implementation leaves both replicas without violating the statement the case is counted inconclusive (more than 5% inconclusive cases make the run inconclusive); real-time guards (5 s, 10 s for the release at shutdown) only bound hangs",
         "completion of the asynchronous clean-up goroutine (go removeRequest) is read from the runtime goroutine dump",
-        "TTL on the real clock: verdict no later than ttl + 3 s slack; an overrun below 10 s is inconclusive, a request still waiting 10 s after its TTL never got a verdict; a mid-way shutdown is only issued >= 500 ms before the nearest expiry and with no clean-up goroutine pending (otherwise the listed C06-F3 could be hit by native scheduling)",
-        "C06-F3 schedules (drain while a verdicted request's clean-up is held) are never executed in-process: counted and excluded when the finding is listed, executed in an isolated child copy of the test binary when it is not; the witness is confirmed in a child on every run",
+        "TTL on the real clock: verdict no later than ttl + 3 s slack; an overrun below 10 s is inconclusive, a request still waiting 10 s after its TTL never got a verdict; a mid-way shutdown is only issued >= 500 ms before the nearest expiry and with no clean-up goroutine pending (the situation of the repaired defect C06-F3, kept out of the real-clock unit because there it cannot be reproduced from a saved input)",
+        "schedules that drain while a verdicted request's clean-up is held (the shape of the repaired defect C06-F3, which killed the process) run in an isolated child copy of the test binary until 10 children survived, then in-process; the three witnesses of the repaired defects C06-F1..F3 run on every check and fail if a defect returns",
     ],
     "units": [
         dict({"pkg": "c06", "test": "TestQueueSchedules", "quick": 2000, "thorough": 20000, "shards": 16}, **_CRASH),
